@@ -1,8 +1,12 @@
 #!/bin/sh
 # Runs the thorough tier of every check in turn (used through `vp run`); prints one summary line per check.
 cd "$(dirname "$0")/.."
+out=$(mktemp)
 for c in ${CHECKS:-C01 C02 C03 C04 C05 C06 C07 C08 C09 C10 C11 C12 C13 C14 C15 C16 C17 C18 C19 C20}; do
   start=$(date +%s)
-  timeout ${PER_CHECK_TIMEOUT:-5400} ./check $c --tier thorough 2>&1 | grep -v "^KNOWN" | tail -6 | cut -c1-400
-  echo "== $c exit=$? took $(( $(date +%s) - start ))s"
+  timeout ${PER_CHECK_TIMEOUT:-5400} ./check $c --tier thorough > "$out" 2>&1
+  rc=$?
+  grep -v "^KNOWN" "$out" | tail -6 | cut -c1-400
+  echo "== $c exit=$rc took $(( $(date +%s) - start ))s"
 done
+rm -f "$out"
